@@ -213,19 +213,23 @@ CHECKS = {
             "runtime; witnessed on every run by echo kernels (value / address / first element / write-back, before and after "
             "buffer growth, all 10 scalar types, both CPU contexts).",
             "7/C17"),
-    "C18": ("Lean 4 proof: one-step theorems over an abstract-heap model of HybridClass (locations = buffer + allocation + inline "
+    "C18": ("Lean 4 proof: invariant by induction over histories + one-step theorems over an abstract-heap model of HybridClass (locations = buffer + allocation + inline "
             "path; dressed caches, _movable, Python attributes) for get/set/copy/move; executable model tied on generated "
             "histories; Mirror oracle after every operation",
-            "Kernel-checked theorems: C18_num_get, C18_rename / C18_no_rename (attributes, also renamed ones, read the buffer data), "
+            "Kernel-checked theorems: C18_mirror_history (in EVERY state reached from the empty one by any sequence of constructor "
+            "calls, attribute reads/writes, copies, moves and Python-attribute writes, every cached dressed child is a valid instance "
+            "and the one cached for a nested field sits at the field's in-line location of its container and cannot move on its own; "
+            "proved through a specification of _reinit_from_xobject that repairs the instance it is called on), "
+            "C18_nested_get_mirrors, C18_num_get, C18_rename / C18_no_rename (attributes, also renamed ones, read the buffer data), "
             "C18_ref_shares (a hybrid assigned to a Ref field of the same buffer is shared: the field records its location, the "
             "attribute returns it, it becomes non-movable), C18_ref_get_mirrors (in EVERY state the attribute of a Ref field is the "
             "cached object only if the buffer refers to exactly it, else what the buffer refers to, or None), "
             "C18_ref_across_buffers_refused (refused and nothing changes), "
             "C18_ref_none, C18_move_refused (nested / referenced / reference-holding objects), C18_copy_fresh (a copy is a new "
             "allocation in the requested buffer, distinct from every existing location).",
-            "Partial: the Python object graph is abstracted by hand and the invariant over whole histories (every cached dressed "
-            "child is the object the buffer data says is there) is checked by the oracle after every operation of generated "
-            "histories, not proved by induction.",
+            "Partial: the Python object graph is abstracted by hand (locations, caches, _movable, Python attributes), tied on generated "
+            "histories; the Mirror oracle after every operation checks the library itself; known finding O-30 (stale cached offsets of "
+            "earlier views) lies below the abstraction of the model.",
             "7/C18"),
     "C19": ("Lean 4 proof: round trip of the dictionary form with default elision and renaming (mutual induction over nesting depth "
             "and field lists, key-lookup lemmas from distinct names), of the full dictionaries stored for references, and of the "
